@@ -39,11 +39,6 @@ Options == [timefmt |-> {"unixtime", "date", "datehour"}, leadname |-> {N_leadti
 Fields == DOMAIN Options
 Vary1(b) == UNION {{[b EXCEPT ![f] = v] : v \in Options[f]} : f \in Fields}
 Vary2(b) == UNION {Vary1(x) : x \in Vary1(b)}
-WellFormed(x) == (x.hasObs \/ x.hasFcst \/ x.colset \in {2, 3, 5, 7})            \* the header needs at least one data column
-                 /\ (x.timefmt = "date" => TRUE)
-Gens(u) == {x \in (IF Universe = "quick" THEN Vary1(Base) \cup Vary1(Base2) \cup {[Base2 EXCEPT !.colset = k, !.colorder = o] : k \in 1..7, o \in {"id", "rev", "rot"}}
-                   ELSE Vary2(Base) \cup Vary2(Base2)) : WellFormed(x)}
-
 \* ---- building the literal file ----
 NumTok(v) == [m |-> FALSE, v |-> v, txt |-> ""]
 Miss(txt) == IF txt = "-999.0" THEN [m |-> FALSE, v |-> R(-999), txt |-> "-999.0"] ELSE [m |-> TRUE, v |-> NaN, txt |-> txt]
@@ -60,6 +55,11 @@ GridRows(x) ==     \* <<t, l, id>> in row-major order, minus the absent ones
       all == [n \in 1..(Len(ts) * Len(ls) * 2) |-> <<ts[((n - 1) \div (2 * Len(ls))) + 1], ls[(((n - 1) \div 2) % Len(ls)) + 1], IdsG[((n - 1) % 2) + 1]>>]
       keepIdx == SelectSeq([n \in DOMAIN all |-> n], LAMBDA n : n \notin x.absent)
   IN  [k \in DOMAIN keepIdx |-> <<keepIdx[k], all[keepIdx[k]]>>]
+WellFormed(x) == (x.hasObs \/ x.hasFcst \/ x.colset \in {2, 3, 5, 7})            \* the header needs at least one data column
+                 /\ GridRows(x) # <<>>                                                  \* at least one data row (a file without rows is not in the domain)
+Gens(u) == {x \in (IF Universe = "quick" THEN Vary1(Base) \cup Vary1(Base2) \cup {[Base2 EXCEPT !.colset = k, !.colorder = o] : k \in 1..7, o \in {"id", "rev", "rot"}}
+                   ELSE Vary2(Base) \cup Vary2(Base2)) : WellFormed(x)}
+
 \* which abstract column kind a header name is, for the generator's own purposes
 KindOfName(nm) == IF nm \in {N_obs} THEN "obs" ELSE IF nm = N_fcst THEN "fcst" ELSE IF nm = N_lat THEN "lat" ELSE "x"
 ColNo(x, nm) == CHOOSE k \in DOMAIN CanonCols(x) : CanonCols(x)[k] = nm
